@@ -97,6 +97,7 @@ def run(plan, prop='C12', extra_oracle=None, own_oracles=True):
       state = world.from_bytes(world.init(params), data)
       exact = copy.deepcopy(ex)
       t = k
+      ctx.__dict__.pop('_carried', None)   # history oracles re-base
       ctx.probe('restore')
       ctx.log.add(op=kind, at=k)
       continue
